@@ -66,6 +66,57 @@ def case(args):
     return r
 
 
+def same_task_members_case(args):
+    """a sub-stream whose members include several outputs of one and the same upstream task (a process with two out-ports,
+    both connected to the adapter): the joining task runs once, its command names every member once, its output is their
+    concatenation in that order, and each of them is recorded as upstream"""
+    seed, i = args
+    rng = random.Random(seed * 217645199 + i)
+    sp = t3.Spec(maxtasks=rng.randint(1, 4), bufsize=rng.choice([1, 2, 3, 128]))
+    L = rng.randint(1, 4)
+    paths = ["p%d.txt" % j for j in range(L)]
+    for p in paths:
+        sp.files[p] = p + "\n"
+    s = sp.src("src", paths)
+    two = sp.proc(t3.Proc("two", kind="cattok", ins=[("a", [(s, "out")])], outs=[("o", "parts/{i:a}.left"), ("o2", "parts/{i:a}.right")]))
+    extra_src = rng.random() < 0.5
+    line = "S2S %s %d %s %d %s" % (vlib.hx("s2s"), two, vlib.hx("o"), two, vlib.hx("o2"))
+    members = ["parts/%s.%s" % (p, side) for p in paths for side in ("left", "right")]
+    if extra_src:
+        sp.files["extra.txt"] = "extra\n"
+        s2 = sp.src("src2", ["extra.txt"])
+        line += " %d %s" % (s2, vlib.hx("out"))
+        members.append("extra.txt")
+    j = sp.raw(line)
+    sep = rng.choice([" ", ",", ":"])
+    body = "cat {i:a|join: }" if sep == " " else 'cat $(echo "{i:a|join:%s}" | tr "%s" " ")' % (sep, sep)
+    sp.proc(t3.RawProc("joiner", body + " > {o:o}", ins=[("a", [(j, "substream")])], outs=[("o", "joined.txt")], join={"a": sep}))
+    sc = t3.Scratch()
+    try:
+        sc.plant(sp.files)
+        impl = t3.run_impl(sc, sp, timeout=60, yield_seed=(rng.randint(1, 10**6), 500) if rng.random() < 0.4 else None)
+        problems = []
+        v = impl["fs"].get("joined.txt.audit.json")
+        if impl["rc"] != 0 or not impl["returned"] or not v:
+            problems.append(("unexpected-failure", "exit %s: %s" % (impl["rc"], impl["stderr"][-200:])))
+        else:
+            rec = json.loads(v[1])
+            import re
+            named = re.findall(r"\.\./([A-Za-z0-9_./]+)", rec.get("Command", "").split(" > ")[0])
+            if sorted(named) != sorted(members):
+                problems.append(("join-members", "the joined command names %s, the sub-stream consists of %s" % (named, sorted(members))))
+            files = t3.data_files(impl["fs"])
+            want = "".join(files.get(m, "?") for m in named)
+            if files.get("joined.txt") != want:
+                problems.append(("join-content", "joined.txt is not the concatenation of the members in the order of the command"))
+            missing = [m for m in named if m not in (rec.get("Upstream") or {})]
+            if missing:
+                problems.append(("upstream-missing", "sub-stream members given to the joined command but not recorded as upstream in its audit record: %s (Upstream keys: %s)" % (missing[:3], sorted(rec.get("Upstream") or {})[:6])))
+        return {"spec": sp.text(), "bufsize": sp.bufsize, "problems": problems, "ntasks": L + 1, "rc": impl["rc"], "stderr": impl["stderr"][-200:], "yield": None, "wall": impl["wall"], "L": 2 * L, "sep": sep}
+    finally:
+        sc.close()
+
+
 def t2_lines(rng, n):
     """the join branch of formatCommand with modifiers, through NewTask -> Task.Command"""
     paths = ["a.txt", "d/b.txt", "/abs/c.txt", "x", "../up/y.txt", "d.e/f.g.txt"]
@@ -88,6 +139,7 @@ def run(rep, tier, seed):
     rng = random.Random(seed)
     n = 60 if tier == "quick" else 1000
     results = t3.run_many(case, [(seed, i) for i in range(n)])
+    results += t3.run_many(same_task_members_case, [(seed, i) for i in range(n // 4)])
     found = t3.report_t3(rep, MODULE, proved, results, "T3 sub-streams / T2 join branch")
     lines = t2_lines(rng, 500 if tier == "quick" else 10000)
     diffs, impl, model = vlib.t2_compare("format", lines)
@@ -97,7 +149,7 @@ def run(rep, tier, seed):
                       {"kind": "join-expansion", "input_line": lines[i] if i >= 0 else None, "impl": a, "model": b, "pattern": unhx(lines[i].split()[0]) if i >= 0 else None})
     rep.cov["evaluations"] = len(results) + len(lines)
     rep.cov["distinct_nontrivial"] = len({r["spec"] for r in results if r["L"] >= 1}) + len(set(lines))
-    rep.cov["rule"] = "T3: a source of L files (L in 0,1,2,buf,buf+1,buf+3; SCIPIPE_BUFSIZE 1-3), optionally a fast / slow / irregular producer process, StreamToSubStream, and a process with {i:a|join:SEP} for SEP in space, comma, colon: exactly one command of the joiner, its output (which concatenates the members through the expanded placeholder, so each member resolves from the temp dir and the order is arrival order) and command text equal to the model's, every member a key of Upstream in the audit record; T2: the join branch with modifiers and five separators through NewTask -> Task.Command vs the extracted model; non-trivial = at least one member"
+    rep.cov["rule"] = "T3: a source of L files (L in 0,1,2,buf,buf+1,buf+3; SCIPIPE_BUFSIZE 1-3), optionally a fast / slow / irregular producer process, StreamToSubStream, and a process with {i:a|join:SEP} for SEP in space, comma, colon: exactly one command of the joiner, its output (which concatenates the members through the expanded placeholder, so each member resolves from the temp dir and the order is arrival order) and command text equal to the model's, every member a key of Upstream in the audit record; sub-streams whose members include both outputs of one upstream task (a two-out-port process connected twice to the adapter), optionally with a member from elsewhere; T2: the join branch with modifiers and five separators through NewTask -> Task.Command vs the extracted model; non-trivial = at least one member"
     rep.cov["samples"] = [results[0]["spec"], unhx(lines[0].split()[0])]
     rep.notes["input_distribution"] = {"t3_runs": len(results), "length_hist": {str(l): sum(1 for r in results if r["L"] == l) for l in sorted({r["L"] for r in results})},
                                        "separators": {s: sum(1 for r in results if r["sep"] == s) for s in (" ", ",", ":")}, "t2_lines": len(lines)}
